@@ -227,7 +227,7 @@ def region_definitions(prog: Program, rep: Report) -> None:
     for meth, opwant in (("atsea", "gt"), ("onland", "lt")):
         g = prog.role_func("grid", meth)
         dom2 = NFDomain()
-        it2 = Interp(prog, dom2, depth=0)
+        it2 = Interp(prog, dom2, depth=2)
         it2.objenv["grid.i0"] = NF.atom("i0")
         it2.objenv["grid.j0"] = NF.atom("j0")
         it2.objenv["grid.M"] = NF.atom("M")
